@@ -90,6 +90,7 @@ def touchedOf (s : St) (ws : List String) : List Nat :=
   match ws with
   | ["set", o, _, _] => (parseNat? o).toList
   | ["poke", o, _, _] => (parseNat? o).toList
+  | ["setrow", o, _, _, _] => (parseNat? o).toList
   | ["init", o, _, _] => (parseNat? o).toList
   | ["exit", objs, _] => (parseNatList? objs).getD []
   | ["deepcopy", objs] => (List.range ((parseNatList? objs).getD []).length).map (· + s.next)
@@ -121,6 +122,23 @@ def stepLine (s : St) (ws : List String) : St × String :=
           (r.1, (if r.2 then "ok " else "reject ") ++ showObj r.1 cacheKeys o ++ " d" ++ toString (r.1.dassigned x))
         else bad
       | _, _, _ => bad
+  -- a custom setter as observed: the whole new row of the object (definition order) / a refusal
+  | ["setrow", o, x, vs, ms] => match parseNat? o, parseNat? x, parseNatList? vs, parseNatList? ms with
+      | some o, some x, some vs, some ms =>
+        if inR s [o] ∧ vs.length = (s.defs o).length then
+          let tbl := (s.defs o).zip vs
+          let row := fun y => match tbl.find? (fun p => p.1 == y) with | some p => p.2 | none => s.vals o y
+          let r := setC s (fun _ _ => some (row, ms)) o x 0
+          (r.1, (if r.2 then "ok " else "reject ") ++ showObj r.1 cacheKeys o ++ " d" ++ toString (r.1.dassigned x))
+        else bad
+      | _, _, _, _ => bad
+  | ["setrefuse", o, x] => match parseNat? o, parseNat? x with
+      | some o, some x =>
+        if inR s [o] then
+          let r := setC s (fun _ _ => none) o x 0
+          (r.1, "reject " ++ showObj r.1 cacheKeys o ++ " d" ++ toString (r.1.dassigned x))
+        else bad
+      | _, _ => bad
   | ["poke", o, x, v] => match parseNat? o, parseNat? x, parseNat? v with
       | some o, some x, some v => if inR s [o] then let t := pokeP s o x v; (t, "ok " ++ showObj t cacheKeys o) else bad
       | _, _, _ => bad
